@@ -375,7 +375,26 @@ func implicitRecvNonNil(fn *ssa.Function) bool {
 	if _, ok := fn.Signature.Recv().Type().(*types.Pointer); !ok {
 		return false
 	}
-	return len(fn.Blocks) > 0 && fn.Synthetic == ""
+	if len(fn.Blocks) == 0 || fn.Synthetic != "" {
+		return false
+	}
+	// a method that compares its receiver with nil handles the nil receiver itself
+	if len(fn.Params) > 0 {
+		recv := fn.Params[0]
+		for _, b := range fn.Blocks {
+			for _, ins := range b.Instrs {
+				if bo, ok := ins.(*ssa.BinOp); ok && (bo.Op == token.EQL || bo.Op == token.NEQ) {
+					if c, isC := bo.Y.(*ssa.Const); isC && c.Value == nil && bo.X == ssa.Value(recv) {
+						return false
+					}
+					if c, isC := bo.X.(*ssa.Const); isC && c.Value == nil && bo.Y == ssa.Value(recv) {
+						return false
+					}
+				}
+			}
+		}
+	}
+	return true
 }
 
 func (e *Exec) applyGhostSet(gs GhostSet, h *Heap, at *ssa.BasicBlock, reach string) *Heap {
